@@ -1,5 +1,3 @@
-//go:build verif_container
-
 package harness
 
 import (
@@ -498,7 +496,7 @@ func (c *cnrEnv) exec(op cnrOp) cnrObs {
 	return o
 }
 
-func structFields(it stackitem.Item) [][]byte {
+func cnrStructFields(it stackitem.Item) [][]byte {
 	arr, ok := it.Value().([]stackitem.Item)
 	if !ok {
 		return nil
@@ -510,7 +508,7 @@ func structFields(it stackitem.Item) [][]byte {
 	return out
 }
 
-func bytesArray(it stackitem.Item) [][]byte {
+func cnrBytesArray(it stackitem.Item) [][]byte {
 	if _, ok := it.(stackitem.Null); ok {
 		return nil
 	}
@@ -529,7 +527,7 @@ func (c *cnrEnv) observe(o *cnrObs) {
 	for _, cid := range c.probeCids() {
 		var g cnrGot
 		if it, err := c.Read(c.container, "get", cid); err == nil {
-			f := structFields(it)
+			f := cnrStructFields(it)
 			require.Len(c.T, f, 4)
 			g.ok, g.val, g.sig, g.pub, g.tok = true, f[0], f[1], f[2], f[3]
 		}
@@ -545,7 +543,7 @@ func (c *cnrEnv) observe(o *cnrObs) {
 			}
 		}
 		if it, err := c.Read(c.container, "eACL", cid); err == nil {
-			f := structFields(it)
+			f := cnrStructFields(it)
 			require.Len(c.T, f, 4)
 			g.eaclOK = true
 			copy(g.eacl[:], f)
@@ -556,17 +554,17 @@ func (c *cnrEnv) observe(o *cnrObs) {
 		var l [2][][]byte
 		it, err := c.Read(c.container, "list", ow)
 		require.NoError(c.T, err)
-		l[0] = bytesArray(it)
+		l[0] = cnrBytesArray(it)
 		it, err = c.Read(c.container, "containersOf", ow)
 		require.NoError(c.T, err)
-		l[1] = bytesArray(it)
+		l[1] = cnrBytesArray(it)
 		o.lists = append(o.lists, l)
 	}
 	o.count = c.ReadInt(c.container, "count").Int64()
 	for _, d := range c.domains {
 		var rr cnrRecs
 		if it, err := c.Read(c.nns, "getRecords", string(d), 16); err == nil {
-			rr.ok, rr.recs = true, bytesArray(it)
+			rr.ok, rr.recs = true, cnrBytesArray(it)
 		}
 		o.records = append(o.records, rr)
 	}
@@ -596,7 +594,7 @@ func (c *cnrEnv) observe(o *cnrObs) {
 	for _, ow := range c.ownerIDs {
 		it, err := c.Read(c.neofsid, "key", ow)
 		require.NoError(c.T, err)
-		o.idkeys = append(o.idkeys, bytesArray(it))
+		o.idkeys = append(o.idkeys, cnrBytesArray(it))
 	}
 }
 
@@ -876,7 +874,7 @@ func (m *cnrMon) domainOf(op cnrOp) string {
 	return op.Name + "." + z
 }
 
-func sameBytesList(a, b [][]byte) bool {
+func cnrSameBytesList(a, b [][]byte) bool {
 	if len(a) != len(b) {
 		return false
 	}
@@ -1031,10 +1029,10 @@ func (m *cnrMon) step(op cnrOp, o *cnrObs) {
 		if len(po) == 0 {
 			wantList = byCid
 		}
-		if !sameBytesList(o.lists[i][0], wantList) {
+		if !cnrSameBytesList(o.lists[i][0], wantList) {
 			m.violate4(fmt.Sprintf("list(%x) is not the sorted set of live ids of that owner", po))
 		}
-		if !sameBytesList(o.lists[i][1], byKey) {
+		if !cnrSameBytesList(o.lists[i][1], byKey) {
 			m.violate4(fmt.Sprintf("containersOf(%x) is not the sorted set of live ids of that owner", po))
 		}
 	}
@@ -1173,17 +1171,17 @@ func (m *cnrMon) step(op cnrOp, o *cnrObs) {
 		if len(o.events) != 0 {
 			m.violate5("failed invocation emitted notifications")
 		}
-		if !sameBytesList(o.rawKeys, m.prev.rawKeys) || o.count != m.prev.count {
+		if !cnrSameBytesList(o.rawKeys, m.prev.rawKeys) || o.count != m.prev.count {
 			m.violate5(fmt.Sprintf("failed %s changed the container storage", op.Kind))
 		}
 		for i := range o.idkeys {
-			if !sameBytesList(o.idkeys[i], m.prev.idkeys[i]) {
+			if !cnrSameBytesList(o.idkeys[i], m.prev.idkeys[i]) {
 				m.violate5(fmt.Sprintf("failed %s changed NeoFSID keys", op.Kind))
 			}
 		}
 		if op.DT == 0 {
 			for i := range o.records {
-				if o.records[i].ok != m.prev.records[i].ok || !sameBytesList(o.records[i].recs, m.prev.records[i].recs) {
+				if o.records[i].ok != m.prev.records[i].ok || !cnrSameBytesList(o.records[i].recs, m.prev.records[i].recs) {
 					m.violate5(fmt.Sprintf("failed %s changed NNS records", op.Kind))
 				}
 			}
